@@ -1,5 +1,8 @@
-"""C05: decided by spec/Walker.tla (exhaustive TLC) + trace validation of the real walker/pool (see vlib/walker_engine.py)."""
+"""C05: walker level (Walker.tla exhaustive + trace validation of the real walker/pool) and CLI level
+(GrogBuild.tla histories with failing commands, timeouts, missing outputs and failing checks replayed into the real binary)."""
 from vlib import walker_engine
+from vlib.checks import _hist
 
 def run(chk, tmp, replay=None):
     walker_engine.run(chk, tmp, "C05")
+    _hist.run(chk, tmp, "C05")
